@@ -498,8 +498,11 @@ def next_psuedo_matches(state: TokenizerState) -> TokenInfo | None:
             if state.in_braces() and state.at_parenlev():
                 state.pop_mode((state.lnum, end))
             state.parenlev -= 1
-        elif token == ":" and state.in_braces() and state.at_parenlev():
-            state.add_prog(start + 1, end, mode=ModeInColon(state.parenlev), pattern=choice(RBrace=EndRBrace))
+        elif token[0] == ":" and state.in_braces() and state.at_parenlev():
+            # directly inside the braces a colon always starts the format spec, `:=` included
+            state.pos = start + 1
+            state.add_prog(start + 1, start + 1, mode=ModeInColon(state.parenlev), pattern=choice(RBrace=EndRBrace))
+            return TokenInfo(Token.OP, state.line[start : start + 1], spos, (state.lnum, start + 1), state.line)
         token_type = Token.OP
     elif match.lastgroup == "End":  # // continuation
         state.continued = True
